@@ -99,10 +99,16 @@ func (d *DetInformer) SetWatchErrorHandler(h cache.WatchErrorHandler) error { re
 func (d *DetInformer) AddIndexers(ix cache.Indexers) error                  { return d.indexer.AddIndexers(ix) }
 func (d *DetInformer) GetIndexer() cache.Indexer                            { return d.indexer }
 
+// DebugDeliver, when set, is told of every delivered event (debug output only).
+var DebugDeliver func(typ, key string, old interface{}, obj runtime.Object)
+
 // Deliver applies one watch event to the cache and notifies handlers.
 func (d *DetInformer) Deliver(typ string, obj runtime.Object) {
 	key, _ := cache.MetaNamespaceKeyFunc(obj)
 	old, exists, _ := d.indexer.GetByKey(key)
+	if DebugDeliver != nil {
+		DebugDeliver(typ, key, old, obj)
+	}
 	switch typ {
 	case "ADDED", "MODIFIED":
 		if exists {
